@@ -5,8 +5,9 @@ import vlib
 TARGETS = ["Base/Corr.vo", "Base/Num.vo", "C20/Model.vo", "C20/Corr.vo", "C20/Spec.vo", "C20/SpecTest.vo",
            "C20/ProofsGuard.vo", "C20/ProofsLoud.vo", "C20/ProofsOk.vo", "C20/ProofsTerm.vo", "C20/ProofsRefuted.vo",
            "C20/ModelSvd.vo", "C20/ProofsSvd.vo", "C20/ProofsView.vo", "C20/Props.vo",
-           "C20/ModelRetry.vo", "C20/ProofsRetry.vo", "C20/CorrRetry.vo", "C20/PropsRetry.vo"]
-PROPS = ["C20/Props.v", "C20/PropsRetry.v"]
+           "C20/ModelRetry.vo", "C20/ProofsRetry.vo", "C20/CorrRetry.vo", "C20/PropsRetry.vo",
+           "C20/ModelRecycle.vo", "C20/CorrRecycle.vo", "C20/SpecRecycle.vo", "C20/ProofsRecycle.vo", "C20/PropsRecycle.vo"]
+PROPS = ["C20/Props.v", "C20/PropsRetry.v", "C20/PropsRecycle.v"]
 PROPOSED = os.path.join(vlib.ROOT, "corpus/C20/known_findings_proposed.json")
 
 PARTIAL = (
@@ -44,7 +45,21 @@ PARTIAL = (
     "probe states, not by a theorem. Tie: source-shape regexes for move key / shrink key / factor, plus a bit-exact float replay of "
     "every logged inner loop that rejected a trial point (CorrRetry.richeck). Hang findings of these loops are matched by the STATE "
     "the run spins in (fuel probe), never by input family. Whether a floating-point convergence loop exits is not decidable by this "
-    "technique (DESIGN 6.2).")
+    "technique (DESIGN 6.2). "
+    "RECYCLED WORKSPACES (round 6, ModelRecycle/PropsRecycle): the Run entry points of cholesky, determinant, hessenbergReduction, "
+    "householderTridiagonalization, householderBidiagonalization, qrAlgorithm (both branches, nested Hessenberg / Householder workspaces), "
+    "eigensystem (nested qrAlgorithm, the Eigenvectors/U aliasing), svd (nested bidiagonalisation), matrixInverse (nested cholesky), "
+    "backSubstitution and gramSchmidt are modelled on the SHAPES of every workspace buffer (nil checks, allocation, dimension tests, "
+    "Set-panics, wiring) plus a provenance bit (result computed from the new input). Proved: backSubstitution, gramSchmidt for EVERY "
+    "workspace; qrAlgorithm: every successful run has the right shapes, and is computed from the new input iff H was nil or InitializeH "
+    "is set; hessenbergReduction: every call of every HISTORY from the empty workspace is loud or right (and a caller-built workspace is "
+    "refuted); cholesky: exact characterisation (too small: index panic, large enough: used and returned as it is) and the shrink "
+    "refutation; matrixInverse PD, qrAlgorithm/eigensystem stale input, eigensystem stale vectors / unguarded outputs: refuted with "
+    "witness histories (five known findings). NOT proved: history theorems for tridiag / bidiag / svd / qrAlgorithm / eigensystem / "
+    "matrixInverse (general) (tied by the replay only); for the cores of tridiag, bidiag, qr, svd, eigen, matinv the model decides the "
+    "outcome only when every buffer has exactly the shape a fresh call allocates (otherwise `None`: the recycled-vs-fresh oracle alone "
+    "judges); element VALUES are compared with a fresh-workspace call by the harness (tolerance 1e-9), not proved; inputs of the stream are "
+    "positive definite / full rank, element types f64, r64 (generic paths) and f32 (cholesky).")
 
 LOOPS = [
     # (site, cap kind, status)
@@ -314,7 +329,7 @@ def term_stage(ctx, binary, fs):
         if r["outcome"] == "deadline" and len(confirmed) < 12:
             rf = os.path.join(ctx.dir, "recheck_in.json")
             json.dump({"tcase": r["case"]}, open(rf, "w"))
-            vlib.sh([binary, "--replay", rf, "--out", ctx.dir, "--tier", "thorough"], env=vlib.go_env(), cwd=vlib.ROOT, timeout=120)
+            vlib.sh([binary, "--replay", rf, "--out", ctx.dir, "--tier", "recheck"], env=vlib.go_env(), cwd=vlib.ROOT, timeout=200)
             try:
                 r2 = json.load(open(os.path.join(ctx.dir, "replay_term.json")))["results"][0]
             except Exception:
@@ -423,6 +438,114 @@ def qr_stage(ctx, binary):
                       "the exact 2x2 QR step model and qrAlgorithm.QRstep / Run disagree on %s" % json.dumps(b)[:200])
 
 
+def known_recycle(c, fs):
+    """c: one case of the recycle stream carrying an anomaly.  Matched by algorithm AND anomaly type AND option
+    combination AND size relation to the earlier calls of the sequence (never by algorithm alone)."""
+    st = c["rseq"]["steps"][c["step"]]
+    parts = c.get("sub", ",").split(",")
+    rel = parts[1]
+    foreign = parts[2][len("foreign:"):] if len(parts) > 2 else None
+    if foreign is not None:
+        # a caller-built buffer: the anomaly is a listed finding only while the workspace MODEL (which carries every
+        # dimension test the Run functions perform) agrees with the implementation on this very call - the caller
+        # never passes a mismatching case here, so a lost guard is a violation with this call as failing input
+        for f in fs:
+            m = f.get("match", {})
+            if m.get("stream") == "recycle-foreign" and c["anomaly"] in m.get("types", []):
+                return f
+        return None
+    for f in fs:
+        m0 = f.get("match", {})
+        for m in [m0] + list(m0.get("alt", [])):
+            if m.get("stream") != "recycle" or m.get("alg") != c["rseq"]["alg"]:
+                continue
+            if c["anomaly"] in m.get("types", []) and st["opt"] in m.get("opts", []) and rel in m.get("rels", []):
+                return f
+    return None
+
+
+def recycle_stage(ctx, binary, fs, replay_file=None):
+    """round 6: call sequences on ONE recycled InSitu / workspace (nested algorithms included), every option pair,
+    sizes growing / shrinking / equal; model replay (CorrRecycle.rcheck) + property-level oracle (recycled vs fresh)."""
+    n = 150 if ctx.tier == "quick" else 3000
+    name = "recycle"
+    if replay_file:
+        name = "replay_recycle"
+        rc, out = vlib.sh([binary, "--replay", replay_file, "--out", ctx.dir, "--tier", ctx.tier], timeout=900,
+                          cwd=vlib.ROOT, env=vlib.go_env())
+    else:
+        rc, out = vlib.sh([binary, "--seed", str(ctx.seed), "--n", str(n), "--tier", ctx.tier, "--out", ctx.dir, "--extra",
+                           "recycle:" + os.path.join(vlib.ROOT, "corpus/C20/recycle.jsonl")], timeout=1500,
+                          cwd=vlib.ROOT, env=vlib.go_env())
+    mp = os.path.join(ctx.dir, name + ".meta.json")
+    if rc != 0 or not os.path.exists(mp):
+        ctx.violation({"obligation": "C20 harness recycle stream", "log": out[-3000:]}, False,
+                      "harness crashed while running the recycled-workspace sequences")
+        return 1
+    meta = json.load(open(mp))
+    cases = vlib.load_jsonl(os.path.join(ctx.dir, name + ".jsonl"))
+    shards = sorted(glob.glob(os.path.join(ctx.dir, name + "_*.v")), key=lambda p: int(re.findall(r"_(\d+)\.v$", p)[0]))
+    bad = eval_and_report(ctx, shards, cases, meta["per_shard"], "recycled-workspace sequences")
+    badkeys = {(json.dumps(b["rseq"], sort_keys=True), b["step"]) for b in bad}
+    shrunk = {}
+    try:
+        for a in json.load(open(os.path.join(ctx.dir, name + ".anomalies.json")))["anomalies"]:
+            shrunk[(a["site"].split(":")[1], a["type"], a["sub"])] = a
+    except Exception:
+        pass
+    seen, unknown = {}, {}
+    for c in cases:
+        if not c.get("anomaly"):
+            continue
+        key = (c["rseq"]["alg"], c["anomaly"], c["sub"])
+        mismatching = (json.dumps(c["rseq"], sort_keys=True), c["step"]) in badkeys
+        f = None if mismatching else known_recycle(c, fs)
+        if f:
+            seen.setdefault(f["id"], {}).setdefault("%s/%s" % (key[0], key[2]), 0)
+            seen[f["id"]]["%s/%s" % (key[0], key[2])] += 1
+        else:
+            unknown.setdefault(key, []).append(c)
+    for fid, d in sorted(seen.items()):
+        ctx.known_finding(fid, "recycled workspace: %d call(s): %s" % (sum(d.values()), ", ".join(sorted(d))[:240]))
+    what = {"wrong-shape": "returned a wrongly sized result with err == nil",
+            "stale-values": "returned values that differ from a call on a fresh workspace (stale data) with err == nil",
+            "accepted-where-fresh-fails": "accepted an input that a call on a fresh workspace rejects",
+            "deadline": "did not return within the deadline"}
+    nrep = 0
+    for key, lst in sorted(unknown.items()):
+        if nrep >= 8:
+            break
+        nrep += 1
+        w = shrunk.get(key)
+        c = min(lst, key=lambda x: len(x["rseq"]["steps"]))
+        if w and len(w["rseq"]["steps"]) <= len(c["rseq"]["steps"]):
+            c = {"rseq": w["rseq"], "step": w["step"], "obs": w["obs"]}
+        st = c["rseq"]["steps"][c["step"]]
+        ctx.violation({"rseq": c["rseq"], "anomaly": key[1], "sub": key[2], "obs": {k: c["obs"][k] for k in ("kind", "out", "fresh_kind", "fresh_out", "same", "maxdiff")},
+                       "broken": ["correspondence C20.CorrRecycle.rcheck"] if bad else []}, True,
+                      "%s on a recycled workspace (%s element type, calls %s): the last call (%dx%d, options %d) %s: returned shapes %s, fresh call %s, max |diff| %s" % (
+                          key[0], c["rseq"]["type"], [(x["n"], x["m"], x["opt"]) for x in c["rseq"]["steps"]], st["n"], st["m"], st["opt"],
+                          what.get(key[1], key[1]), c["obs"]["out"], c["obs"]["fresh_out"], c["obs"]["maxdiff"]))
+    if bad and not unknown:
+        b = min(bad, key=lambda x: len(x["rseq"]["steps"]))
+        ctx.violation({"rseq": b["rseq"], "obs": {k: b["obs"][k] for k in ("kind", "out", "post", "same")},
+                       "obligation": "correspondence C20.CorrRecycle.rcheck (workspace model vs implementation)"}, False,
+                      "the workspace model and the implementation disagree on %d call(s) (first: %s calls %s -> kind %d, shapes %s), but no call "
+                      "returned a stale or wrongly sized result" % (len(bad), b["rseq"]["alg"], [(x["n"], x["m"], x["opt"]) for x in b["rseq"]["steps"]],
+                                                                     b["obs"]["kind"], b["obs"]["out"]))
+    if not replay_file:
+        ctx.cov["evaluations"] = ctx.cov.get("evaluations", 0) + len(cases)
+        ctx.cov["distinct_nontrivial"] = ctx.cov.get("distinct_nontrivial", 0) + meta.get("distinct_nontrivial", 0)
+        ctx.cov["rule"] = ctx.cov.get("rule", "") + " | " + meta.get("rule", "")
+        ctx.cov.setdefault("input_distribution", {})["recycle"] = meta.get("histogram", {})
+        ctx.cov.setdefault("extra", {})["recycle"] = {"calls": len(cases), "model_mismatches": len(bad),
+                                                      "anomalies_known": {k: sum(v.values()) for k, v in seen.items()},
+                                                      "anomalies_unknown": len(unknown)}
+        ctx.log("recycled workspaces: %d calls, %d mismatching the model, %d known anomaly classes, %d unexplained" % (
+            len(cases), len(bad), len(seen), len(unknown)))
+    return 1 if (unknown or bad) else 0
+
+
 def run(ctx):
     ctx.cov["trusted_base"] = vlib.TRUSTED_BASE_COMMON + [
         "subprocess deadlines (wall clock) for the termination stream; a deadline hit is reported, never waited for",
@@ -432,8 +555,10 @@ def run(ctx):
     ok, failures = vlib.proof_stage(ctx, TARGETS, PROPS)
     thms = vlib.theorem_names(os.path.join(vlib.COQ, "C20/Props.v"))
     thms2 = vlib.theorem_names(os.path.join(vlib.COQ, "C20/PropsRetry.v"))
+    thms3 = vlib.theorem_names(os.path.join(vlib.COQ, "C20/PropsRecycle.v"))
     if ok:
-        ctx.cov["print_assumptions"] = vlib.print_assumptions("C20", [("C20.Props", thms), ("C20.PropsRetry", thms2)], ctx.dir)
+        ctx.cov["print_assumptions"] = vlib.print_assumptions("C20", [("C20.Props", thms), ("C20.PropsRetry", thms2),
+                                                                      ("C20.PropsRecycle", thms3)], ctx.dir)
     for f in failures:
         ctx.violation({"obligation": f["target"], "lemma": f["lemma"], "errors": f["errors"]}, False,
                       "proof obligation no longer checks: %s %s" % (f["target"], f["lemma"] or ""))
@@ -446,6 +571,7 @@ def run(ctx):
     guard_stage(ctx, binary, fs, ok)
     term_stage(ctx, binary, fs)
     qr_stage(ctx, binary)
+    recycle_stage(ctx, binary, fs)
 
 
 def replay(ctx, path):
@@ -467,10 +593,19 @@ def replay(ctx, path):
         print("property oracle on the implementation: %s" % (
             "; ".join("%s %s" % (a["site"], a["type"]) for a in an) if an else "holds"))
         return 1 if (unknown or not agree) else 0
+    if "rseq" in rp:
+        rf = os.path.join(ctx.dir, "replay_in.json")
+        json.dump({"rseq": rp["rseq"]}, open(rf, "w"))
+        for old in glob.glob(os.path.join(ctx.dir, "replay_recycle*")):
+            os.remove(old)
+        ctx.violations_before = len(getattr(ctx, "violations", []))
+        r = recycle_stage(ctx, binary, fs, replay_file=rf)
+        print("recycled-workspace sequence %s: %s" % (json.dumps(rp["rseq"]), "still fails" if r else "holds (or is a listed finding)"))
+        return r
     if "tcase" in rp:
         rf = os.path.join(ctx.dir, "replay_in.json")
         json.dump({"tcase": rp["tcase"]}, open(rf, "w"))
-        rc, out = vlib.sh([binary, "--replay", rf, "--out", ctx.dir, "--tier", ctx.tier], env=vlib.go_env(), cwd=vlib.ROOT)
+        rc, out = vlib.sh([binary, "--replay", rf, "--out", ctx.dir, "--tier", "recheck"], env=vlib.go_env(), cwd=vlib.ROOT)
         r = json.load(open(os.path.join(ctx.dir, "replay_term.json")))["results"][0]
         print("outcome: %s iters=%s evals=%s %s" % (r["outcome"], r["iters"], r["evals"], r.get("msg", "")))
         badk = r["outcome"] in ("deadline", "crash", "rtpanic") or (
